@@ -137,8 +137,15 @@ func (k Keeper) AllocateTokensToStakers(ctx sdk.Context, operatorAddress sdk.Acc
 				if curStakerPower, err := k.StakingKeeper.CalculateUSDValueForStaker(ctx, staker, avsAddress, operatorAddress.Bytes()); err != nil {
 					logger.Error("curStakerPower error", "error", err)
 				} else {
-					stakersPowerMap[staker] = curStakerPower
-					globalStakerAddressList = append(globalStakerAddressList, staker)
+					// a staker reached through several AVSs or assets is listed once, with the sum of
+					// the powers that are added to the total; listing it once per occurrence with only
+					// the last power hands out more than the whole reward
+					if prevPower, ok := stakersPowerMap[staker]; ok {
+						stakersPowerMap[staker] = prevPower.Add(curStakerPower)
+					} else {
+						stakersPowerMap[staker] = curStakerPower
+						globalStakerAddressList = append(globalStakerAddressList, staker)
+					}
 					curTotalStakersPowers = curTotalStakersPowers.Add(curStakerPower)
 				}
 			}
